@@ -190,6 +190,27 @@ pub fn run(ctx: &Ctx) {
         |(s, v), l| check(s, v, TAILS[2], true, l),
     );
 
+    // (c2) long payloads: counts whose varint needs 3 and 4 bytes
+    {
+        let lens: Vec<usize> = vec![16383, 16384, 16385, 20000, 65535, 65536, 2097151, 2097152, 2097153];
+        let kinds = 5u64;
+        let lens_ref = &lens;
+        ctx.par_range("long-payloads", lens.len() as u64 * kinds, move |i, l| {
+            let n = lens_ref[(i / kinds) as usize];
+            let (s, v) = match i % kinds {
+                0 => (Shape::String, Value::Str("x".repeat(n))),
+                1 => (Shape::Bytes, Value::Bytes((0..n).map(|k| (k % 251) as u8).collect())),
+                2 => (Shape::Seq(Box::new(Shape::U8)), Value::List((0..n.min(70000)).map(|k| Value::U((k % 256) as u128)).collect())),
+                3 => (Shape::Seq(Box::new(Shape::Bool)), Value::List((0..n.min(70000)).map(|k| Value::Bool(k % 3 == 0)).collect())),
+                _ => (
+                    Shape::Map(Box::new(Shape::U8), Box::new(Shape::Unit)),
+                    Value::Map((0..n.min(70000)).map(|k| (Value::U((k % 256) as u128), Value::Unit)).collect()),
+                ),
+            };
+            check(&s, &v, TAILS[(i % 3) as usize], true, l)
+        });
+    }
+
     // (d) all f32 bit patterns (thorough)
     if ctx.tier == crate::runner::Tier::Thorough {
         ctx.par_range("exhaustive-f32", 1u64 << 32, |i, l| {
